@@ -107,16 +107,30 @@ class Sched:
                 return
         ct.state = "running"
 
+    def _me(self):
+        ident = threading.get_ident()
+        ct = self.by_ident.get(ident)
+        if ct is None:
+            tid = self.adopt.get(threading.current_thread())
+            if tid is None:
+                return None
+            ct = self.threads[tid]
+            ct.ident = ident
+            self.by_ident[ident] = ct
+        return ct
+
     def block_until(self, pred, where="blocked"):
         """For scheduler-aware primitives: park the current controlled thread until pred() holds."""
-        ct = self.by_ident.get(threading.get_ident())
-        if ct is None or not self.active:
+        if not self.active:
+            return False
+        ct = self._me()
+        if ct is None:
             return False
         self._park(ct, where, pred)
         return True
 
     def is_controlled(self):
-        return self.active and threading.get_ident() in self.by_ident
+        return self.active and self._me() is not None
 
     # ----- threads
     def spawn(self, tid, name, fn):
